@@ -144,6 +144,16 @@ class C16(Property):
                    [["set", 1, 10], ["set", 2, 20], ["get", 1], ["set", 3, 30], ["get", 2], ["get", 1], ["take", 2, 21],
                     ["take", 1, 99], ["take", 4, None], ["del", 1], ["set", 5, 50], ["get", 1], ["get", 2], ["get", 3],
                     ["get", 4], ["get", 5]]})
+        # minimised past failures (from the mutation self-test)
+        d = os.path.join(vlib.ROOT, "corpus", "C16")
+        if os.path.isdir(d):
+            import json
+            for f in sorted(os.listdir(d)):
+                if f.endswith(".json"):
+                    c = json.load(open(os.path.join(d, f)))
+                    c = c.get("case", c)
+                    c.pop("id", None)
+                    cs.append(c)
         return cs
 
     # ------------------------------------------------------------------ generators
